@@ -114,6 +114,21 @@ impl<'s, W: FmtWrite> Stringifier<'s, W> {
         Ok(())
     }
 
+    /// Write a path of which the parser has taken `suffix` off once.
+    ///
+    /// A path that still ends in the suffix gets it again, otherwise re-parsing would take off another one.
+    fn write_path_quoted(&mut self, n: &StrName, suffix: &str) -> FmtResult {
+        if n.name.ends_with(suffix) {
+            let quoted = format!("{}{}", escape_html_quote(&n.name), suffix);
+            self.write_str("\"")?;
+            self.write_token(&quoted, Some(&n.name), &n.location())?;
+            self.write_str("\"")?;
+            Ok(())
+        } else {
+            self.write_str_name_quoted(n)
+        }
+    }
+
     fn write_ident(&mut self, n: &Ident, need_name: bool) -> FmtResult {
         self.write_token(&n.name, need_name.then_some(&n.name), &n.location())
     }
